@@ -1,0 +1,94 @@
+//go:build verif
+
+// Contracts for package parser, read by the gocv verification-condition
+// generator in /verif. This file contains comments only: it adds no code
+// to any build. Syntax: see /verif/DESIGN.md section 2.2.
+
+package parser
+
+//@ pred letter(c int)  = ('A' <= c && c <= 'Z') || ('a' <= c && c <= 'z')
+//@ pred digit(c int)   = '0' <= c && c <= '9'
+//@ pred alnum(c int)   = letter(c) || digit(c)
+//@ pred vcChar(c int)  = alnum(c) || c == '_' || c == '-' || c == '.'
+//@ pred devChar(c int) = vcChar(c) || c == ':'
+//@ pred noByte(s string, b int) = forall(i, 0 <= i && i < len(s), s[i] != b)
+//@ pred VCName(s string)  = len(s) >= 1 && letter(s[0]) && alnum(s[len(s)-1]) &&
+//@                          forall(i, 0 <= i && i < len(s), vcChar(s[i]))
+//@ pred DevName(s string) = len(s) >= 1 && alnum(s[0]) && alnum(s[len(s)-1]) &&
+//@                          forall(i, 0 <= i && i < len(s), devChar(s[i]))
+//@ pred QName(d string) = exists(p, 0 < p && p < len(d), exists(q, p < q && q < len(d),
+//@        d[p] == '/' && d[q] == '=' &&
+//@        VCName(d[:p]) && VCName(d[p+1:q]) && DevName(d[q+1:])))
+
+//@ func IsLetter(c rune) (r bool)
+//@   pure
+//@   ensures[C07] r == letter(c)
+//@ func IsDigit(c rune) (r bool)
+//@   pure
+//@   ensures[C07] r == digit(c)
+//@ func IsAlphaNumeric(c rune) (r bool)
+//@   pure
+//@   ensures[C07] r == alnum(c)
+
+//@ func validateVendorOrClassName(name string) (err error)
+//@   pure
+//@   ensures[C07,C05] iff(err == nil, VCName(name))
+//@   loop 1 invariant forall(k, 1 <= k && k <= #pos, vcChar(name[k]))
+//@ func ValidateVendorName(vendor string) (err error)
+//@   pure
+//@   ensures[C07,C05] iff(err == nil, VCName(vendor))
+//@ func ValidateClassName(class string) (err error)
+//@   pure
+//@   ensures[C07,C05] iff(err == nil, VCName(class))
+//@ func ValidateDeviceName(name string) (err error)
+//@   pure
+//@   ensures[C07,C05] iff(err == nil, DevName(name))
+//@   loop 1 invariant forall(k, 1 <= k && k <= #pos, devChar(name[k]))
+
+//@ func ParseQualifier(kind string) (vendor, class string)
+//@   pure
+//@   logical v, c string
+//@   ensures[C07] implies(vendor == "", class == kind)
+//@   ensures[C07] implies(vendor != "", class != "" && noByte(vendor, '/') &&
+//@                                      kind == vendor + "/" + class)
+//@   ensures[C07] implies(v != "" && c != "" && noByte(v, '/') && kind == v + "/" + c,
+//@                        vendor == v && class == c)
+//@   assert at return: implies(kind == v + "/" + c, kind[len(v)] == '/')
+
+//@ func ParseDevice(device string) (vendor, class, name string)
+//@   pure
+//@   logical v, c, n string
+//@   ensures[C07] implies(vendor == "", class == "" && name == device)
+//@   ensures[C07] implies(vendor != "", class != "" && name != "" &&
+//@                        noByte(vendor, '/') && noByte(vendor, '=') && noByte(class, '=') &&
+//@                        device == vendor + "/" + class + "=" + name)
+//@   ensures[C07] implies(v != "" && c != "" && n != "" && v[0] != '/' &&
+//@                        noByte(v, '/') && noByte(v, '=') && noByte(c, '=') &&
+//@                        device == v + "/" + c + "=" + n,
+//@                        vendor == v && class == c && name == n)
+//@   assert at return: implies(device == v + "/" + c + "=" + n, device[len(v) + 1 + len(c)] == '=')
+
+//@ func ParseQualifiedName(device string) (vendor, class, name string, err error)
+//@   pure
+//@   logical v, c, n string
+//@   ensures[C07] implies(err == nil, VCName(vendor) && VCName(class) && DevName(name) &&
+//@                                    device == vendor + "/" + class + "=" + name)
+//@   ensures[C07] implies(err != nil, vendor == "" && class == "" && name == device)
+//@   ensures[C07] implies(err == nil, QName(device))
+//@   assert at return: implies(err == nil, device[len(vendor)] == '/' &&
+//@                        device[len(vendor) + 1 + len(class)] == '=' &&
+//@                        device[:len(vendor)] == vendor &&
+//@                        device[len(vendor)+1 : len(vendor)+1+len(class)] == class &&
+//@                        device[len(vendor)+1+len(class)+1:] == name)
+//@   ensures[C07] implies(VCName(v) && VCName(c) && DevName(n) &&
+//@                        device == v + "/" + c + "=" + n,
+//@                        err == nil && vendor == v && class == c && name == n)
+
+//@ func IsQualifiedName(device string) (r bool)
+//@   pure
+//@   logical v, c, n string
+//@   ensures[C07] implies(r, QName(device))
+//@   ensures[C07] implies(VCName(v) && VCName(c) && DevName(n) && device == v + "/" + c + "=" + n, r)
+//@ func QualifiedName(vendor, class, name string) (r string)
+//@   pure
+//@   ensures[C07] r == vendor + "/" + class + "=" + name
